@@ -248,6 +248,25 @@ static void build_struct_cases(bool pairs) {
     std::vector<size_t> targets; for (size_t t = 0; t <= n + 1; t++) targets.push_back(t); if (B.big) { targets.push_back(8191); targets.push_back(16383); }
     for (size_t p : B.ptrs) for (size_t t : targets) { Bytes m = b; m[p] = 0xc0 | (t >> 8); m[p + 1] = t & 0xff; snprintf(l, sizeof l, "pointer:%s ptr@%zu->%zu%s", B.name, p, t, t == p ? "(self)" : t >= n ? "(outside)" : t > p ? "(forward)" : ""); add_case(m, l); }
     for (size_t i = 0; i < B.ptrs.size(); i++) for (size_t j = 0; j < B.ptrs.size(); j++) if (i != j) { size_t p = B.ptrs[i], q = B.ptrs[j]; Bytes m = b; m[p] = 0xc0 | (q >> 8); m[p + 1] = q & 0xff; m[q] = 0xc0 | (p >> 8); m[q + 1] = p & 0xff; snprintf(l, sizeof l, "pointer:%s loop-of-two ptr@%zu<->ptr@%zu", B.name, p, q); add_case(m, l); }
+    // per-record length field made inconsistent with the record's TYPE and with where the datagram ends: for every record RDLENGTH :=
+    // 0..true+2 and 0xFFFF (A records also 5 and 16; long rdata: 0..6 and true-2..true+2), the datagram left as it is AND cut / zero-padded
+    // so that it ends exactly where the declared rdata ends, one byte before, one byte after. (A decoder that bounds-checks RDLENGTH
+    // bytes but consumes what the TYPE implies reads behind the datagram only in these shapes.)
+    { size_t off = 12; bool okw = true; unsigned qd = rd16(b.data(), 4), nrec = rd16(b.data(), 6) + rd16(b.data(), 8) + rd16(b.data(), 10);
+      for (unsigned i = 0; i < qd && okw; i++) { okw = skip_name(b.data(), n, off, off) && off + 4 <= n; off += 4; }
+      for (unsigned r = 0; r < nrec && okw; r++) {
+        if (!skip_name(b.data(), n, off, off) || off + 10 > n) break;
+        unsigned type = rd16(b.data(), off), T = rd16(b.data(), off + 8); size_t F = off + 8, R = off + 10; if (R + T > n) break;
+        std::set<unsigned> vals; if (T <= 64) for (unsigned v = 0; v <= T + 2; v++) vals.insert(v); else { for (unsigned v = 0; v <= 6; v++) vals.insert(v); for (unsigned v = T - 2; v <= T + 2; v++) vals.insert(v); }
+        vals.insert(0xFFFF); if (type == 1) { vals.insert(5); vals.insert(16); }
+        for (unsigned v : vals) { if (v == T) continue;
+          Bytes m = b; m[F] = v >> 8; m[F + 1] = v & 0xff;
+          snprintf(l, sizeof l, "rdlength:%s record#%u(type %u) rdlength=%u(real %u) datagram-unchanged", B.name, r, type, v, T); add_case(m, l);
+          if (v == 0xFFFF) continue;
+          for (int d = -1; d <= 1; d++) { size_t end = R + v + d; if (end < R || end == n) continue; Bytes c = m; c.resize(end, 0);
+            snprintf(l, sizeof l, "rdlength:%s record#%u(type %u) rdlength=%u(real %u) datagram-ends-at-declared-rdata-end%+d(%s)", B.name, r, type, v, T, d, end < n ? "cut" : "zero-padded"); add_case(c, l); } }
+        off = R + T; }
+    }
     // every cycle of three pointers (a loop detector that only remembers the previous offset passes self-loops and loops of two)
     for (size_t i = 0; i < B.ptrs.size(); i++) for (size_t j = 0; j < B.ptrs.size(); j++) for (size_t k = 0; k < B.ptrs.size(); k++) if (i != j && j != k && i != k) {
       size_t p = B.ptrs[i], q = B.ptrs[j], r = B.ptrs[k]; Bytes m = b; m[p] = 0xc0 | (q >> 8); m[p + 1] = q & 0xff; m[q] = 0xc0 | (r >> 8); m[q + 1] = r & 0xff; m[r] = 0xc0 | (p >> 8); m[r + 1] = p & 0xff;
